@@ -273,6 +273,30 @@ def E():
     return None if S2.m2 == 14 else "S2.m2 == %r after S1.m2 = 14" % S2.m2
 
 
+def II():
+    """defining a derived cells in the middle of a chain leaves subs with properties of their former base"""
+    out = []
+    m = _reset()
+    S0, S1 = m.new_space("S0"), m.new_space("S1")
+    S2 = m.new_space("S2", bases=S0)
+    S3 = m.new_space("S3", bases=[S2, S1, S0])
+    S0.new_cells("c1", formula="lambda x: x + 1")
+    S1.new_cells("c1", formula="lambda x: x + 2", is_cached=False)
+    S2.c1.formula = "lambda x: x + 8"
+    if S3.c1.is_cached is not True or S3.c1(0) != 8:
+        out.append("after S2.c1.formula = ...: S3.c1 is_cached=%r value=%r (S2.c1 is cached)" % (S3.c1.is_cached, S3.c1(0)))
+    m = _reset()
+    T0, T1 = m.new_space("T0"), m.new_space("T1")
+    T2 = m.new_space("T2", bases=T0)
+    T3 = m.new_space("T3", bases=[T2, T1, T0])
+    T0.new_cells("c2", formula="lambda x: x + 2", is_cached=False)
+    T1.new_cells("c2", formula="def c2(x):\n    return x + 4")
+    T2.c2.is_cached = True
+    if T3.c2(0) != 2:
+        out.append("after T2.c2.is_cached = True: T3.c2(0) == %r (T2.c2 is now its nearest defined base: 2)" % T3.c2(0))
+    return "; ".join(out) or None
+
+
 # ------------------------------------------------------------------ C02 / C09 / C13 / C07
 def a():
     """a space-level reference starting to shadow a model-level one read by attribute path"""
@@ -631,7 +655,7 @@ def R():
     return None
 
 
-ALL = [A, F, G, U, I, J, K, L, EE, FF, T, Z, B, D, E, a, b, c, H, W, X, V, Y, AA, BB, CC, DD, GG, HH, M, N, O, P, Q, R]
+ALL = [A, F, G, U, I, J, K, L, EE, FF, T, Z, B, D, E, II, a, b, c, H, W, X, V, Y, AA, BB, CC, DD, GG, HH, M, N, O, P, Q, R]
 
 
 if __name__ == "__main__":
